@@ -464,7 +464,7 @@ func checkC10(c *Ctx) {
 		if r.TimedOut {
 			continue
 		}
-		pr := protoRun{ID: r.ID, Args: r.Args, Events: r.Events, Exit: r.Exit, Stdout: r.Stdout}
+		pr := protoRun{ID: r.ID, Args: r.Args, Events: r.Events, Exit: r.Exit, Stdout: r.Stdout, Stderr: r.Stderr}
 		if strings.HasPrefix(r.ID, "badopt-") {
 			pr.Kinds = []string{"scan", "error"}
 		}
